@@ -435,6 +435,53 @@ def conc_nego(ctx, case, idx, body, reply):
     return recs
 
 
+def session_reconfigured(ctx):
+    """A running provider whose application changes the set of enabled codings (set_used_compression) while a consumer
+    is connected and subscribed: what is 'enabled locally' is what was configured last.  Real provider and consumer on
+    the full-stack transport (real SoapClient, real request handler); the http server of the provider shares the
+    provider's list of codings, as the provider's own server does."""
+    from decimal import Decimal
+    from verif.pair import Pair
+    recs = []
+    hdr_of = lambda text: [{'tok': t.strip(), 'q': 'absent'} for t in text.split(',') if t.strip()]   # noqa: E731
+    for after in ([], ['gzip'], [c for c in ctx.registered if c != 'gzip'][:1]):
+        pair = Pair(transport='fullstack', role_provider='example')
+        try:
+            prov = pair.provider
+            pair.pserver.supported_encodings = prov._compression_methods   # noqa: SLF001  (same list object as in real use)
+            prov.set_used_compression(*after)
+            pos = len(pair.net.log)
+            pair.consumer.get_service_client.get_md_state([])
+            with pair.mdib.metric_state_transaction() as mgr:
+                mgr.get_state('numeric.ch0.vmd0').MetricValue.Value = Decimal(5)
+            from verif.fullstack import parse_request
+            for w in pair.net.log[pos:]:
+                raw = getattr(w, 'raw', None)
+                if raw is None:
+                    continue
+                _m, _p, req_hdr, _b = parse_request(raw)
+                if w.src == 'consumer':     # response of the provider's server to a request of the consumer
+                    rhead = getattr(w, 'raw_response', b'').split(b'\r\n\r\n')[0].decode('latin-1').lower()
+                    chosen = 'none'
+                    for line in rhead.split('\r\n'):
+                        if line.startswith('content-encoding:'):
+                            chosen = line.split(':', 1)[1].strip()
+                    recs.append({'kind': 'nego', 'hdr': hdr_of(req_hdr.get('accept-encoding', '')), 'enabled': list(after),
+                                 'path': 'reconfigured:response', 'chosen': chosen, 'same': (w.status or 0) == 200,
+                                 'x': repr(req_hdr.get('accept-encoding'))})
+                elif w.src == 'provider':   # notification: the subscriber declared its codings with the Subscribe request
+                    sub_hdr = next((parse_request(x.raw)[2].get('accept-encoding', '') for x in pair.net.log
+                                    if getattr(x, 'raw', None) and x.src == 'consumer' and b'Subscribe' in x.data), '')
+                    recs.append({'kind': 'nego', 'hdr': hdr_of(sub_hdr), 'enabled': list(after),
+                                 'path': 'reconfigured:notification', 'chosen': req_hdr.get('content-encoding', 'none'),
+                                 'same': True, 'x': repr(sub_hdr)})
+        finally:
+            pair.stop()
+    if not any(r['path'].endswith('response') for r in recs) or not any(r['path'].endswith('notification') for r in recs):
+        raise MachineryError('reconfigured session: no response / notification observed')
+    return recs
+
+
 def conc_big(ctx, case):
     from sdc11073.httpserver.httpreader import mk_chunks
     n, c, pat = case['n'], case['c'], case['pat']
@@ -631,6 +678,7 @@ def _check(run):  # noqa: C901, PLR0912, PLR0915
         t_conc['coding'], tt = round(time.time() - tt, 1), time.time()
         nbody = _xmlish(400, random.Random(run.seed + 2))
         traces['nego'] = [conc_nego(ctx, c, i, nbody, nbody[::-1]) for i, c in enumerate(cases['nego'])]
+        traces['nego'].append(session_reconfigured(ctx))
         t_conc['nego'], tt = round(time.time() - tt, 1), time.time()
         traces['big'] = [conc_big(ctx, c) for c in cases['big']]
         t_conc['big'] = round(time.time() - tt, 1)
@@ -679,7 +727,7 @@ def _check(run):  # noqa: C901, PLR0912, PLR0915
     for _sz, p, ti, li, clause in found:
         rec = traces[p][ti][li]
         descr, what = _descr_and_what(rec, clause)
-        replay = {'part': p, 'abstract_case': cases[p][ti] if p != 'coding' else None, 'record': rec, 'clause': clause}
+        replay = {'part': p, 'abstract_case': cases[p][ti] if p != 'coding' and ti < len(cases[p]) else None, 'record': rec, 'clause': clause}
         run.violation(descr, what, replay)
 
     # 4. vacuity
